@@ -3,7 +3,7 @@
     Property theorems only. *)
 From Coq Require Import NArith Ascii.
 From stdpp Require Import gmap.
-From Rocfl Require Import Model.Inventory Model.InvSpec Proofs.InventoryFacts.
+From Rocfl Require Import Model.Inventory Model.InvSpec Proofs.InventoryFacts Model.KnownC01 Proofs.KnownC01Facts.
 
 (** every reachable committed inventory is valid and every reachable staged
     inventory satisfies the staged invariant, for all histories of new / cp / mv /
@@ -50,6 +50,25 @@ Definition ex_run : ostate :=
 Example C01_nonvacuous :
   (∃ i, o_main ex_run = Some i ∧ head i = 2%N ∧ size (i_manifest i) = 1%nat) ∧ o_staged ex_run = None.
 Proof. split; [eexists; split; [vm_compute; reflexivity|split; vm_compute; reflexivity]|vm_compute; reflexivity]. Qed.
+
+(** Known finding failed-commit-dedup-persisted (known-findings.txt): [ostep] models commits that complete.  A commit
+    that the store refuses AFTER commit_inner's de-duplication leaves the de-duplicated inventory in the staging
+    area; that inventory is a valid committed inventory but violates the staged invariant (clause I5), and staging
+    on it is NOT covered by the theorems above: there are pre, post = a de-duplication of pre, and a path p such that
+    removing p from post leaves a digest without content while removing it from pre does not. *)
+Theorem C01_known_failed_commit_dedup_refuted :
+  ∃ pre post p,
+    StagedWF pre ∧ dedup_okb pre post = true ∧
+    c01_failed_commit_dedup pre = false ∧ c01_failed_commit_dedup post = true ∧
+    dangling_digest (sapply (SRemove p) post) = true ∧
+    dangling_digest (sapply (SRemove p) pre) = false.
+Proof. exact failed_commit_dedup_witness. Qed.
+Print Assumptions C01_known_failed_commit_dedup_refuted.
+
+(** the class is exactly "outside the staged invariant": no inventory the theorems above speak about is in it *)
+Theorem C01_known_class_outside_invariant : ∀ i, StagedWF i → c01_failed_commit_dedup i = false.
+Proof. exact staged_wf_outside_class. Qed.
+Print Assumptions C01_known_class_outside_invariant.
 
 (** * file-system level: the fault-free commit of the protocol model (Model/FsTree.v, Model/Commit.v) leaves an object
     root that abstracts (Model/CommitAbs.v: [abs]) to a tree satisfying [written_by_rocfl] (Model/ObjTree.v) - every
